@@ -29,7 +29,8 @@ func init() {
 }
 
 const (
-	c06S0       int64 = 1676160000 * 1000000000 // Sunday 2023-02-12 00:00:00 UTC
+	c06Feb      int64 = 1676160000 * 1000000000 // Sunday 2023-02-12 00:00:00 UTC
+	c06NewYear  int64 = 1703376000 * 1000000000 // Sunday 2023-12-24 00:00:00 UTC
 	c06Ms       int64 = 1000000
 	c06Sec      int64 = 1000 * c06Ms
 	c06Day      int64 = 86400 * c06Sec
@@ -37,6 +38,10 @@ const (
 	c06MsInDay  int64 = 86400000
 	c06MsInWeek int64 = 7 * c06MsInDay
 )
+
+// c06S0 is the reference Sunday of the run: an ordinary week (February) or
+// the weeks around New Year, where a week straddles the month and the year.
+var c06S0 = c06Feb
 
 // constellations
 const (
@@ -64,6 +69,9 @@ func c06WeekOffset(c int) int64 {
 
 // c06WeekStart: start of week number w of constellation c, ns relative to S0.
 func c06WeekStart(c int, w int64) int64 { return w*c06Week + c06WeekOffset(c) }
+
+// which epochs a harness explores (set by the harness before c06StartTime)
+var c06EpochLo, c06EpochHi = 0, 0
 
 type c06Obs struct {
 	c       int
@@ -132,6 +140,10 @@ func c06Expect(o c06Obs) (string, string) {
 // c06StartTime: a symbolic start time covering every position in a week on
 // both sides of every rollover: nine days from Saturday of week 0.
 func c06StartTime() int64 {
+	c06S0 = c06Feb
+	if verifParam("new-year", c06EpochLo, c06EpochHi) == 1 {
+		c06S0 = c06NewYear
+	}
 	// every instant the handler computes from T lies within [S0-2d, S0+9w)
 	verifTimeWindow(c06S0-2*c06Day, c06S0+9*c06Week)
 	// milliseconds and nanoseconds drawn separately and structurally bounded
@@ -204,8 +216,10 @@ func c06Run(k int, anyStart bool) {
 // of MSM4/MSM7.
 func VerifC06_History() {
 	k := 2
+	c06EpochLo, c06EpochHi = 0, 0
 	if verifTier() > 0 {
 		k = 3
+		c06EpochHi = 1
 	}
 	c06Run(k, false)
 }
@@ -214,6 +228,7 @@ func VerifC06_History() {
 // and leaves the times of later valid messages undisturbed.
 func VerifC06_Illegal() {
 	k := 3
+	c06EpochLo, c06EpochHi = 0, 0
 	t := c06StartTime()
 	h := New(verifTimeOf(c06S0+t), slog.LevelInfo)
 	verifWitness("reached")
@@ -250,8 +265,12 @@ func VerifC06_Illegal() {
 // C17: start time anywhere in the week of the first observation.
 func VerifC17_StartAnywhereInWeek() {
 	k := 2
+	// quick: the weeks around New Year (a week that straddles the month and
+	// the year); thorough: an ordinary week as well
+	c06EpochLo, c06EpochHi = 1, 1
 	if verifTier() > 0 {
 		k = 3
+		c06EpochLo = 0
 	}
 	c06Run(k, true)
 }
